@@ -90,6 +90,14 @@ func VerifyFunc(prog *Program, fi *FuncInfo, tier string) (res *UnitResult) {
 		u.finish(res)
 	}()
 	fi.loops = collectLoops(fi.Decl)
+	u.atAsserts = map[*ast.CallExpr][]*Clause{}
+	if u.con != nil {
+		for _, c := range u.con.Asserts {
+			if site, ok := findCallSite(prog, fi, c.At).(*ast.CallExpr); ok {
+				u.atAsserts[site] = append(u.atAsserts[site], c)
+			}
+		}
+	}
 	u.computeSiteOrdinals(fi.Decl.Body, "")
 	u.siteDone[fi.Decl.Body] = true
 	st := u.initState()
@@ -307,7 +315,7 @@ func (u *Unit) functionWritesTypeInv() bool {
 	for _, ti := range u.prog.CS.TypeInvs {
 		prefix := "F:" + ti.Pkg + "." + ti.Type + "."
 		for k := range direct {
-			if strings.HasPrefix(k, prefix) {
+			if strings.HasPrefix(k, prefix) && strings.Contains(ti.Clause.Text, "."+strings.TrimPrefix(k, prefix)) {
 				return true
 			}
 		}
